@@ -89,6 +89,126 @@ def marginal_at(f, names, point):
     return c + 0.5 * eta @ sol + 0.5 * d * math.log(2 * math.pi) - 0.5 * np.linalg.slogdet(lam)[1]
 
 
+def _fit_quadratic(h, d):
+    """(c, eta, lam) with h(x) = c + eta.x - x.lam.x/2 if h is quadratic (checked at two
+    off-lattice points), else None."""
+    zero = np.zeros(d)
+    c = h(zero)
+    if not math.isfinite(c):
+        return None
+    eye = np.eye(d)
+    lam = np.zeros((d, d))
+    eta = np.zeros(d)
+    for i in range(d):
+        a, b = h(eye[i]), h(-eye[i])
+        if not (math.isfinite(a) and math.isfinite(b)):
+            return None
+        lam[i, i] = -(a + b - 2 * c)
+        eta[i] = (a - b) / 2
+    for i, j in itertools.combinations(range(d), 2):
+        v = h(eye[i] + eye[j])
+        if not math.isfinite(v):
+            return None
+        lam[i, j] = lam[j, i] = -(v - c - eta[i] - eta[j]) - (lam[i, i] + lam[j, j]) / 2
+    for chk in (np.array([0.7 - 0.45 * i for i in range(d)]), np.array([-1.3 + 0.6 * i for i in range(d)])):
+        got = h(chk)
+        want = c + eta @ chk - 0.5 * chk @ lam @ chk
+        if not math.isfinite(got) or abs(got - want) > 1e-7 * (1 + abs(got) + abs(want)):
+            return None
+    return c, eta, lam
+
+
+def integral_at(lm, integrand, names, point):
+    """integral of exp(lm) * integrand over the real inputs `names` at `point`, when
+    lm is an integrable quadratic in the block and the integrand a polynomial of
+    degree <= 2 in it (both established from point evaluations); else None.
+    The integrand may be vector-valued: the result has its shape."""
+    inputs = dict(lm.inputs)
+    inputs.update(integrand.inputs)
+    block = [(n, tuple(inputs[n].shape), int(np.prod(inputs[n].shape)) if inputs[n].shape else 1) for n in names]
+    d = sum(k for _, _, k in block)
+
+    def ev(f, x):
+        pt = dict(point, **_as_point(block, x))
+        return np.asarray(oracle._ground_value(f, {k: v for k, v in pt.items() if k in f.inputs}), dtype=np.float64)
+
+    def h(x):
+        v = ev(lm, x)
+        if v.shape != ():
+            raise oracle.Declined("non-scalar log-measure")
+        return float(v)
+
+    fit = _fit_quadratic(h, d)
+    if fit is None:
+        return None
+    c, eta, lam = fit
+    w = np.linalg.eigvalsh(lam)
+    if w.min() <= 1e-6 * max(1.0, w.max()):
+        return None
+    cov = np.linalg.inv(lam)
+    mu = cov @ eta
+    logz = c + 0.5 * eta @ mu + 0.5 * d * math.log(2 * math.pi) - 0.5 * np.linalg.slogdet(lam)[1]
+    shape = tuple(integrand.output.shape)
+    out = np.zeros(shape)
+    for idx in itertools.product(*[range(s) for s in shape]) if shape else [()]:
+        fit = _fit_quadratic(lambda x: float(ev(integrand, x)[idx]), d)
+        if fit is None:
+            return None
+        c2, b2, a2 = fit
+        # E[c2 + b2.x - x.a2.x/2] under N(mu, cov)
+        out[idx] = c2 + b2 @ mu - 0.5 * (mu @ a2 @ mu + np.trace(a2 @ cov))
+    return math.exp(logz) * out if logz < 600 else None
+
+
+def check_integral(lm, integrand, out, names, stats, max_points=5):
+    """Compare `out` (funsor's Integrate(lm, integrand, names)) with integral_at."""
+    inputs = dict(lm.inputs)
+    inputs.update(integrand.inputs)
+    if any(n not in inputs or inputs[n].dtype != "real" for n in names):
+        return None
+    if tuple(lm.output.shape) != ():
+        return None
+    axes = sorted(oracle.input_axes({k: v for k, v in inputs.items() if k not in names}))
+    sizes = [a[2] for a in axes]
+    pts = list(itertools.product(*[range(s) for s in sizes]))
+    if len(pts) > max_points:
+        step = len(pts) / float(max_points)
+        pts = [pts[int(i * step)] for i in range(max_points)]
+    for idx in pts:
+        point = {a[0]: oracle._point_value(a[1], i, a[0]) for a, i in zip(axes, idx)}
+        try:
+            want = integral_at(lm, integrand, names, point)
+        except oracle.Declined:
+            want = None
+        except Exception:  # noqa
+            stats["reference_errors"] = stats.get("reference_errors", 0) + 1
+            want = None
+        if want is None:
+            stats["reference_silent"] = stats.get("reference_silent", 0) + 1
+            continue
+        try:
+            got = np.asarray(oracle._ground_value(out, {k: v for k, v in point.items() if k in out.inputs}), dtype=np.float64)
+        except oracle.Declined:
+            continue
+        except Exception:  # noqa
+            stats["reference_errors"] = stats.get("reference_errors", 0) + 1
+            continue
+        stats["reference_points"] = stats.get("reference_points", 0) + 1
+        try:
+            got = np.broadcast_to(got, np.shape(want))
+        except ValueError:
+            return "integral over %s: funsor's value has shape %s, the integrand has shape %s" % (sorted(names), got.shape, np.shape(want))
+        scale = 1 + np.abs(got).max() + np.abs(want).max()
+        if not np.all(np.isfinite(got)) or np.abs(got - want).max() > 1e-6 * scale:
+            return "integral over %s at %s: funsor gives %s, the Gaussian moments of the fitted quadratics give %s" % (
+                sorted(names),
+                {k: (np.asarray(v.data).tolist()) for k, v in point.items()},
+                np.asarray(got).tolist(),
+                np.asarray(want).tolist(),
+            )
+    return None
+
+
 def check_marginal(f, out, names, stats, max_points=6):
     """Compare `out` (funsor's value for Reduce(logaddexp, f, names)) with the
     reference at up to max_points assignments of the remaining inputs.
